@@ -17,7 +17,7 @@ ASSUMPTIONS = ["scipy's sf kernels compute the named distributions (trusted, com
                "axioms 0 <= sf <= 1 and sf non-increasing in its first argument", "parameters positive", "time items strictly increasing",
                "log-normal transform: only exp(log x) = x for x > 0 is used about exp/log/sqrt"]
 OUTSIDE = ["numerical accuracy of scipy's kernels", "n_pts_per_interval outside 1..10", "float rounding of ages and weights", "n > 4"]
-VARIANTS = 'inflow_at start / end also with the multi-point rules; a model evaluated after another model; set_prms with keywords in reversed order'
+VARIANTS = 'inflow_at start / end also with the multi-point rules; a model evaluated after another model; set_prms with keywords in reversed order; parameters as plain numpy arrays broadcast against (t, r): (r,), (t,r), (t,1), (1,r)'
 BOUNDS = {"quick": dict(n="3 (unit, const grids), 4 (uneven grids)", classes=5, inflow_at=["start", "middle", "end"], n_pts="1..10 (all ten rules)", param_shapes="scalar, (r), (t), (t,r), (r,t)", grids=dsm.GRIDS),
           "thorough": dict(n=[3, 4], classes=5, inflow_at=["start", "middle", "end"], n_pts="1..10", param_shapes="as quick + (r,p) orders", grids=dsm.GRIDS)}
 for _t in BOUNDS.values():
@@ -47,6 +47,12 @@ def configs(tier, seed):
                     if grid == "uneven" and npts == 1 and ia == "middle" and len(REAL[lt]) == 2:
                         for ps in ("scalar", "rt"):
                             out.append(dict(h="table", op=lt, key=f"table/{lt}/grid={grid}/n={n}/{ia}{npts}/prm={ps}/via_set_prms_reversed_keywords", lt=lt, grid=grid, n=n, inflow_at=ia, npts=npts, ps=ps, via_set_prms=True))
+                    if npts == 1 and ia == "middle" and (grid == "uneven" or tier == "thorough"):
+                        for ps in ("plain_r", "plain_tr", "plain_t1", "plain_1r"):
+                            for via in (False, True):
+                                if via and (len(REAL[lt]) != 2 or ps not in ("plain_t1", "plain_r")):
+                                    continue
+                                out.append(dict(h="table", op=lt, key=f"table/{lt}/grid={grid}/n={n}/{ia}{npts}/prm={ps}" + ("/via_set_prms_reversed_keywords" if via else ""), lt=lt, grid=grid, n=n, inflow_at=ia, npts=npts, ps=ps, **({"via_set_prms": True} if via else {})))
                     if grid == "uneven" and npts in (1, 3) and ia == "middle":
                         # the same table after another model of the same class was evaluated in this process
                         # (other parameters, another grid with the same end points and length): no state may leak
@@ -113,6 +119,15 @@ def _params(w, cfg, dims, n):
             w.assume(w.gt(v, 0))
             kw[name] = v
             look[name] = lambda c, r, v=v: v
+        elif ps.startswith("plain_"):
+            # a plain numpy array (no FlodymArray): numpy broadcasting against the model's (t, r) shape -- a per-label
+            # vector (r,), a full table (t, r), per-cohort column (t, 1), per-label row (1, r)
+            shape = {"plain_r": (2,), "plain_tr": (n, 2), "plain_t1": (n, 1), "plain_1r": (1, 2)}[ps]
+            A = w.arr("prm_" + name, shape, default=lambda idx, name=name: DEF[name] * (1 + 0.21 * sum((i + 1) * (k + 1) for k, i in enumerate(idx))))
+            for x in A.flat:
+                w.assume(w.gt(x, 0))
+            kw[name] = A.copy()
+            look[name] = lambda c, r, A=A, ps=ps: {"plain_r": lambda: A[r], "plain_tr": lambda: A[c, r], "plain_t1": lambda: A[c, 0], "plain_1r": lambda: A[0, r]}[ps]()
         else:
             shape = tuple(n if l == "t" else 2 for l in ps)
             A = w.arr("prm_" + name, shape, default=lambda idx, name=name: DEF[name] * (1 + 0.21 * sum((i + 1) * (k + 1) for k, i in enumerate(idx))))
